@@ -220,6 +220,52 @@ def rule_R2(ctx, prj, fi: FuncInfo, sites, structural=True):
                 ctx.viol("R2", "get_headers/follow-slice", gh.site(n), f"follow-up is matched from {low}, not from the exclusive end")
 
 
+def rule_R2_evaluated(ctx, prj) -> bool:
+    """get_headers interpreted through the repo's engine on a small token list: the header's range is (start, exclusive end) of
+    its match, the name is a token of that match, and the follow-up is matched from the exclusive end"""
+    from ..absint import MiniInterp, PyRaise, Sym, Unknown, make_token
+    gh = prj.func("codelimit.common.scope.scope_utils:get_headers")
+    try:
+        it = MiniInterp(prj, max_steps=2_000_000, max_depth=80)
+        toks = [("Name", "x"), ("Name", "f"), ("Punctuation", "("), ("Name", "a"), ("Punctuation", ")"), ("Punctuation", "{"),
+                ("Name", "y"), ("Name", "g"), ("Punctuation", "("), ("Punctuation", ")"), ("Punctuation", ";"),
+                ("Name", "h"), ("Punctuation", "("), ("Punctuation", ")")]
+        tokens = [make_token(it, prj, k, v, 1, 2 * i + 1) for i, (k, v) in enumerate(toks)]
+        P = "codelimit.common.token_matching.predicate."
+        name = it.construct(prj.cls(P + "Name:Name"), [], {}, None, gh)
+        bal = it.construct(prj.cls(P + "Balanced:Balanced"), ["(", ")"], {}, None, gh)
+        plus = it.construct(prj.cls("codelimit.common.gsm.operator.OneOrMore:OneOrMore"), [bal], {}, None, gh)
+        brace = it.construct(prj.cls(P + "Symbol:Symbol"), ["{"], {}, None, gh)
+        res = []
+        for follow, want in ((brace, [("f", 1, 5)]), (None, [("f", 1, 5), ("g", 7, 10), ("h", 11, 14)])):
+            r = it.call(gh, [tokens, [name, plus]] + ([follow] if follow is not None else []), {})
+            r = r.rest() if hasattr(r, "rest") else r
+            got = []
+            for h in r:
+                tr = it.getattr(h, "token_range", gh, None)
+                nm = h.fields.get("name_token") if "name_token" in h.fields else None
+                if nm is None:
+                    nmv = it.call_callable(it.getattr(h, "name", gh, None), [], {})
+                else:
+                    nmv = nm.fields.get("value")
+                got.append((nmv, tr.fields.get("start"), tr.fields.get("end")))
+            res.append((follow is not None, got, want))
+    except (Unknown, PyRaise, AnalysisError, AttributeError, KeyError) as e:
+        ctx.info(f"R2: get_headers not evaluable through the engine ({type(e).__name__}: {e}); its use of the match end is read syntactically")
+        return False
+    ok = True
+    for with_follow, got, want in res:
+        what = "with the follow-up `{`" if with_follow else "without follow-up"
+        if got != want:
+            ok = False
+            ctx.viol("R2", "get_headers/token-range" if [g[0] for g in got] == [w[0] for w in want] else "get_headers/follow-slice", gh.site(),
+                     f"get_headers on `x f ( a ) {{ y g ( ) ; h ( )` {what} gives (name, start, end) {got}; required {want} "
+                     f"(range = the match's start and exclusive end, follow-up matched from that end)")
+        else:
+            ctx.ok("R2", gh.site(), f"get_headers {what}: {got} (exclusive ends, follow-up from the end)")
+    return True
+
+
 def rule_R3(ctx, prj):
     ctx.rule("R3", "Balanced.accept/is_open over depth {0,1,2,3} x token {left, right, other}: opens on left, rejects "
                    "right/other at depth 0, accepts everything while depth >= 1 with depth +1 / -1 / unchanged, and is "
@@ -404,7 +450,11 @@ def run(ctx, prj: Project):
         ctx.info(f"find_all not evaluable through the engine either ({type(e).__name__}: {e})")
     sites = _append_sites(fi)
     if explored is not None:
-        rule_R2(ctx, prj, fi, sites, structural=False)
+        ctx.rule("R2", "a reported match's end is the exclusive end (decided by R6 for find_all) and get_headers uses it as such: "
+                       "get_headers interpreted through the engine on a token list with a header followed by `{`, one followed by "
+                       "`;` and one at the end of input - ranges (start, exclusive end), follow-up matched from the end", floor=2)
+        if not rule_R2_evaluated(ctx, prj):
+            ctx.complement("R2", lambda: rule_R2(ctx, prj, fi, sites, structural=False), decided=False)
         rule_R3(ctx, prj)
         return
     ctx.rule("R6", "not evaluable: structural rules R1, R2, R4, R5 apply instead", floor=0)
